@@ -32,6 +32,11 @@ fn shape(s: &str) -> Value {
         "map_nested_ab" => mapv(vec![("m", mapv(vec![("a", Value::Int(1)), ("b", Value::Int(2))])), ("z", Value::Int(0))]),
         "map_nested_ba" => mapv(vec![("z", Value::Int(0)), ("m", mapv(vec![("b", Value::Int(2)), ("a", Value::Int(1))]))]),
         "map_zero" => mapv(vec![("a", Value::Float(0.0))]), "map_negzero" => mapv(vec![("a", Value::Float(-0.0))]),
+        // maps whose key sets differ while the odd key holds Null (a lookup that reads a missing key as Null confuses them)
+        "map_anull_b" => mapv(vec![("a", Value::Null), ("b", Value::Int(1))]), "map_cnull_b" => mapv(vec![("c", Value::Null), ("b", Value::Int(1))]),
+        "map_b_c2" => mapv(vec![("b", Value::Int(1)), ("c", Value::Int(2))]),
+        "map_anull" => mapv(vec![("a", Value::Null)]), "map_cnull" => mapv(vec![("c", Value::Null)]),
+        "arr_map_anull" => Value::array(vec![mapv(vec![("a", Value::Null)])]), "arr_map_cnull" => Value::array(vec![mapv(vec![("c", Value::Null)])]),
         x => panic!("shape {x}"),
     }
 }
